@@ -102,20 +102,27 @@ def run(p, led, tier):
         elif not entails(it.facts, L(f["max_debt"]).add(d, -1)):
             problems["C04-R2"].append(f"debt = {d!r} can exceed max_debt")
         dw = worth(f).add(before_worth, -1)
+
+        def differs(a, b):
+            """a ≠ b possible on this path: equality is judged under the path's facts (a planned spend may know cost = balance + reserve)"""
+            if a == b:
+                return False
+            d_ = a.add(b, -1)
+            return not (entails(it.facts, d_) and entails(it.facts, d_.scale(-1)))
         if kind == "consume":
             dc = L(f[CONSUMED]).add(s["consumed0"], -1)
             if ret is True:
                 want = L(amount).scale(-1)
-                if dw != want:
+                if differs(dw, want):
                     problems["C04-R4"].append(f"success: Δ(net worth) = {dw!r}, not −cost = {want!r}")
-                if dc != L(amount):
+                if differs(dc, L(amount)):
                     problems["C04-R4"].append(f"success: consumption counter grows by {dc!r}, not by cost")
             elif ret is False:
-                if dw != Lin():
+                if differs(dw, Lin()):
                     problems["C04-R4"].append(f"failure: net worth changed by {dw!r}")
-                if L(f[DEBT]) != s["debt0"]:
+                if differs(L(f[DEBT]), s["debt0"]):
                     problems["C04-R4"].append(f"failure: debt changed to {f[DEBT]!r}")
-                if dc != Lin():
+                if differs(dc, Lin()):
                     problems["C04-R4"].append("failure: consumption counter changed")
             else:
                 problems["C04-R4"].append(f"consume returned {ret!r}")
@@ -126,7 +133,7 @@ def run(p, led, tier):
             if not entails(it.facts, L(amount).add(dw, -1)):
                 problems["C04-R4"].append(f"regenerate created energy: Δ(net worth) = {dw!r} can exceed the amount")
         elif kind == "convert":
-            if dw != Lin():
+            if differs(dw, Lin()):
                 problems["C04-R4"].append(f"conversion changed net worth by {dw!r}")
 
     def drive(kind, cfgs):
